@@ -776,6 +776,9 @@ pub(crate) async fn invoke_command_in_subshell_and_get_output(
 
     let cmd_join_handle = tokio::spawn(run_substitution_command(subshell, params, s));
 
+    #[cfg(feature = "verif-hooks")]
+    crate::verif::pause("cmdsubst.before_read");
+
     let output_str = async_reader.read_to_string().await?;
 
     // Now observe the command's completion.
@@ -796,6 +799,8 @@ async fn run_substitution_command(
     mut params: ExecutionParameters,
     command: String,
 ) -> Result<ExecutionResult, error::Error> {
+    #[cfg(feature = "verif-hooks")]
+    crate::verif::pause("cmdsubst.task_start");
     // Parse the string into a whole shell program.
     let parse_result = shell.parse_string(command);
 
